@@ -450,19 +450,6 @@ Proof.
   intros Hp Hc Hl [Wn Wv]. split; rewrite Hp, Hc; [assumption|]. eapply Forall_valid_mono; eassumption.
 Qed.
 
-(* the env-level invariant: O = blocks the object owns, L = caller blocks it may write, R = caller
-   blocks it may only read *)
-Record einv (O L R : list nat) (e : env) : Prop := mkeinv {
-  ei_wok : wok (ew e);
-  ei_sep : sep (O ++ L ++ R) (ew e);
-  ei_mon : exists m, montr (eev e) = Some m /\ NoDup (mowned m) /\
-                     seteq (mowned m) O /\ seteq (mlent m) L /\ seteq (mro m) R
-}.
-
-Lemma einv_world O L R e e' :
-  ew e' = ew e -> eev e' = eev e -> einv O L R e -> einv O L R e'.
-Proof. intros Hw Ht [A B C]. split; rewrite ?Hw, ?Ht; assumption. Qed.
-
 Definition frame (F : list nat) (e e' : env) : Prop :=
   same_on F (wh (ew e)) (wh (ew e')) /\ lens_pres (wh (ew e)) (wh (ew e')).
 Lemma frame_refl F e : frame F e e.
@@ -472,26 +459,74 @@ Proof. intros [A B] [C D]. split; [eapply same_on_trans|eapply lens_pres_trans];
 Lemma frame_incl F G e e' : incl G F -> frame F e e' -> frame G e e'.
 Proof. intros Hi [A B]. split; [eapply same_on_incl; eassumption|assumption]. Qed.
 
+Lemma pop_choice_spec e ch e1 : pop_choice e = (ch, e1) -> ew e1 = ew e /\ eev e1 = eev e.
+Proof.
+  unfold pop_choice. destruct (eal e); intros H; inversion H; subst; split; reflexivity.
+Qed.
+
+Lemma splice_nil l off : splice l off [] = l.
+Proof. unfold splice. cbn [len length app]. rewrite N.add_0_r. apply take_drop. Qed.
+
+Lemma e_write_heap e b off v :
+  wh (ew (e_write e b off v)) = write (wh (ew e)) (b, off) v \/ (v = [] /\ e_write e b off v = e).
+Proof. unfold e_write. destruct v; [right; split; reflexivity|left; reflexivity]. Qed.
+
+(* the env-level invariant of one object: O = blocks it owns, L = caller blocks it may write,
+   R = caller blocks it may only read.  X is the REST OF THE WORLD the object must leave alone:
+   blocks (with their present contents) that belong to other objects sharing the heap and the
+   pool (C14); for a single object X = []. *)
+Section EInv.
+Variable X : list (nat * bytes).
+Definition xblocks : list nat := map fst X.
+Definition xsnap (h : heap) : Prop := Forall (fun p => block h (fst p) = snd p) X.
+
+Record einv (O L R : list nat) (e : env) : Prop := mkeinv {
+  ei_wok : wok (ew e);
+  ei_sep : sep (O ++ L ++ R ++ xblocks) (ew e);
+  ei_mon : exists m, montr (eev e) = Some m /\ NoDup (mowned m) /\
+                     seteq (mowned m) O /\ seteq (mlent m) L /\ seteq (mro m) R;
+  ei_x : xsnap (wh (ew e))
+}.
+
+Lemma xsnap_same h h' : same_on xblocks h h' -> xsnap h -> xsnap h'.
+Proof.
+  unfold xsnap, xblocks. intros Hs Hx. rewrite Forall_forall in *. intros p Hp.
+  rewrite (Hs (fst p)); [now apply Hx|]. now apply in_map.
+Qed.
+Lemma foot_assoc (O L R : list nat) : (O ++ L ++ R) ++ xblocks = O ++ L ++ R ++ xblocks.
+Proof. now rewrite <- !app_assoc. Qed.
+Lemma incl_foot (O L R : list nat) : incl (O ++ L ++ R) (O ++ L ++ R ++ xblocks).
+Proof. intros x. rewrite !in_app_iff. tauto. Qed.
+Lemma incl_xb (O L R : list nat) : incl xblocks (O ++ L ++ R ++ xblocks).
+Proof. intros x. rewrite !in_app_iff. tauto. Qed.
+
+Lemma einv_world O L R e e' :
+  ew e' = ew e -> eev e' = eev e -> einv O L R e -> einv O L R e'.
+Proof. intros Hw Ht [A B C D]. split; rewrite ?Hw, ?Ht; assumption. Qed.
+
+Lemma einv_sep3 O L R e : einv O L R e -> sep (O ++ L ++ R) (ew e).
+Proof.
+  intros [_ Sp _ _]. eapply sep_sub; [|apply incl_foot|exact Sp].
+  destruct Sp as [Sn _ _]. rewrite <- foot_assoc in Sn. now apply NoDup_app_l in Sn.
+Qed.
+
 Lemma einv_callback O L R e :
   einv O L R e -> einv O L R (e_callback e) /\ frame (O ++ L ++ R) e (e_callback e) /\ eev (e_callback e) = eev e.
 Proof.
-  intros [Wk Sp Mn]. unfold e_callback. destruct (eadv e) as [|s r].
+  intros [Wk Sp Mn Hx]. unfold e_callback. destruct (eadv e) as [|s r].
   - split; [split; assumption|split; [apply frame_refl|reflexivity]].
-  - destruct (co_run_spec s _ _ Wk Sp) as (A1 & A2 & A3 & A4).
-    split; [split; assumption|split; [split; assumption|reflexivity]].
+  - destruct (co_run_spec s _ _ Wk Sp) as (A1 & A2 & A3 & A4). cbn [ew eev].
+    split; [split; try assumption|split; [split; [eapply same_on_incl; [apply incl_foot|exact A3]|assumption]|reflexivity]].
+    eapply xsnap_same; [|exact Hx]. eapply same_on_incl; [apply incl_xb|exact A3].
 Qed.
 Lemma einv_poolpoint O L R e :
   einv O L R e -> einv O L R (e_poolpoint e) /\ frame (O ++ L ++ R) e (e_poolpoint e) /\ eev (e_poolpoint e) = eev e.
 Proof.
-  intros [Wk Sp Mn]. unfold e_poolpoint. destruct (epool e) as [|s r].
+  intros [Wk Sp Mn Hx]. unfold e_poolpoint. destruct (epool e) as [|s r].
   - split; [split; assumption|split; [apply frame_refl|reflexivity]].
-  - destruct (co_run_spec s _ _ Wk Sp) as (A1 & A2 & A3 & A4).
-    split; [split; assumption|split; [split; assumption|reflexivity]].
-Qed.
-
-Lemma pop_choice_spec e ch e1 : pop_choice e = (ch, e1) -> ew e1 = ew e /\ eev e1 = eev e.
-Proof.
-  unfold pop_choice. destruct (eal e); intros H; inversion H; subst; split; reflexivity.
+  - destruct (co_run_spec s _ _ Wk Sp) as (A1 & A2 & A3 & A4). cbn [ew eev].
+    split; [split; try assumption|split; [split; [eapply same_on_incl; [apply incl_foot|exact A3]|assumption]|reflexivity]].
+    eapply xsnap_same; [|exact Hx]. eapply same_on_incl; [apply incl_xb|exact A3].
 Qed.
 
 Lemma mon_alloc_ok m b O L R :
@@ -507,17 +542,19 @@ Qed.
 
 Lemma einv_alloc_gen O L R e w' b (e' : env) :
   einv O L R e ->
-  wok w' -> sep (b :: O ++ L ++ R) w' -> ~ In b (O ++ L ++ R) ->
+  wok w' -> sep (b :: O ++ L ++ R ++ xblocks) w' -> ~ In b (O ++ L ++ R) ->
+  same_on xblocks (wh (ew e)) (wh w') ->
   ew e' = w' -> eev e' = EvAlloc b :: eev e ->
   einv (b :: O) L R e'.
 Proof.
-  intros [Wk Sp (m & Hm & Hnd & HO & HL & HR)] Wk' Sp' Hb Ew Et. split.
+  intros [Wk Sp (m & Hm & Hnd & HO & HL & HR) Hx] Wk' Sp' Hb Hs Ew Et. split.
   - now rewrite Ew.
   - now rewrite Ew.
   - rewrite Et, montr_cons, Hm. erewrite mon_alloc_ok by eassumption.
     eexists. split; [reflexivity|]. cbn [mowned mlent mro].
     split; [|split; [now apply seteq_cons|split; assumption]].
     constructor; [|assumption]. rewrite (HO b). rewrite !in_app_iff in Hb. tauto.
+  - rewrite Ew. eapply xsnap_same; eassumption.
 Qed.
 
 Lemma einv_malloc O L R e c e' b :
@@ -531,13 +568,16 @@ Proof.
   destruct (pop_choice_spec _ _ _ Ep) as [Ew1 Et1].
   destruct (w_alloc (ew e1) (pow2ceil c) ch) as [w' b'] eqn:Ea.
   inversion E; subst; clear E.
-  destruct Hi0 as [Wk Sp Mn]. rewrite <- Ew1 in Wk, Sp.
+  destruct Hi0 as [Wk Sp Mn Hx]. rewrite <- Ew1 in Wk, Sp.
   destruct (w_alloc_spec _ _ _ _ _ _ Wk Sp Ea) as (A1 & A2 & A3 & A4 & A5 & A6 & A7 & A8 & A9).
+  assert (Hb3 : ~ In b (O ++ L ++ R)) by (intros H; apply A3; now apply incl_foot).
   split; [|split; [assumption|split; [assumption|]]].
   - eapply (einv_alloc_gen O L R (e_poolpoint e)); try eassumption; try reflexivity.
-    + split; [rewrite <- Ew1 at 1; exact Wk| rewrite <- Ew1 at 1; exact Sp| exact Mn].
+    + split; [rewrite <- Ew1 at 1; exact Wk| rewrite <- Ew1 at 1; exact Sp| exact Mn|exact Hx].
+    + rewrite <- Ew1. eapply same_on_incl; [apply incl_xb|exact A5].
     + cbn [eev]. now rewrite Et1.
-  - eapply frame_trans; [exact Fr0|]. split; cbn [ew]; rewrite <- Ew1; assumption.
+  - eapply frame_trans; [exact Fr0|]. split; cbn [ew]; rewrite <- Ew1; [|assumption].
+    eapply same_on_incl; [apply incl_foot|exact A5].
 Qed.
 
 Lemma einv_gcalloc O L R e c e' b :
@@ -550,13 +590,14 @@ Proof.
   destruct (pop_choice_spec _ _ _ Ep) as [Ew1 Et1].
   destruct (w_gcalloc (ew e1) c ch) as [w' b'] eqn:Ea.
   inversion E; subst; clear E.
-  destruct Hi as [Wk Sp Mn]. rewrite <- Ew1 in Wk, Sp.
+  pose proof Hi as [Wk Sp Mn Hx]. rewrite <- Ew1 in Wk, Sp.
   destruct (w_gcalloc_spec _ _ _ _ _ _ Wk Sp Ea) as (A1 & A2 & A3 & A4 & A5 & A6 & A7 & A8 & A9).
+  assert (Hb3 : ~ In b (O ++ L ++ R)) by (intros H; apply A3; now apply incl_foot).
   split; [|split; [assumption|split; [assumption|]]].
   - eapply (einv_alloc_gen O L R e); try eassumption; try reflexivity.
-    + split; [rewrite <- Ew1 at 1; exact Wk| rewrite <- Ew1 at 1; exact Sp| exact Mn].
+    + rewrite <- Ew1. eapply same_on_incl; [apply incl_xb|exact A5].
     + cbn [eev]. now rewrite Et1.
-  - split; cbn [ew]; rewrite <- Ew1; assumption.
+  - split; cbn [ew]; rewrite <- Ew1; [|assumption]. eapply same_on_incl; [apply incl_foot|exact A5].
 Qed.
 
 Lemma einv_free O L R e s :
@@ -564,14 +605,14 @@ Lemma einv_free O L R e s :
   einv (remove1 (sblk s) O) L R (e_free e s) /\ frame (remove1 (sblk s) O ++ L ++ R) e (e_free e s) /\
   lens_pres (wh (ew e)) (wh (ew (e_free e s))).
 Proof.
-  intros [Wk Sp (m & Hm & Hnd & HO & HL & HR)] Hb Hoff Hcp.
-  assert (HbF : In (sblk s) (O ++ L ++ R)) by (rewrite in_app_iff; tauto).
+  intros [Wk Sp (m & Hm & Hnd & HO & HL & HR) Hx] Hb Hoff Hcp.
+  assert (HbF : In (sblk s) (O ++ L ++ R ++ xblocks)) by (rewrite in_app_iff; tauto).
   destruct (w_free_spec _ s _ Wk Sp HbF) as (A1 & A2 & A3 & A4).
   rewrite remove1_app_in in A2 by assumption.
   set (e1 := mkE (w_free (ew e) s) (eal e) (eadv e) (epool e)
                  (EvFree (sblk s) (soff s) (scp s) (len (block (wh (ew e)) (sblk s))) :: eev e)).
   assert (Hi1 : einv (remove1 (sblk s) O) L R e1).
-  { split; cbn [ew eev e1]; [assumption|assumption|].
+  { split; cbn [ew eev e1]; [assumption|assumption| |rewrite A3; assumption].
     rewrite montr_cons, Hm. cbn [mon_step].
     assert (memb (sblk s) (mowned m) = true) as -> by (apply memb_In; now apply HO).
     rewrite Hoff, Hcp, !N.eqb_refl. cbn [andb].
@@ -587,13 +628,6 @@ Proof.
   - split; [assumption|split; [assumption|apply Fr1]].
 Qed.
 
-Lemma splice_nil l off : splice l off [] = l.
-Proof. unfold splice. cbn [len length app]. rewrite N.add_0_r. apply take_drop. Qed.
-
-Lemma e_write_heap e b off v :
-  wh (ew (e_write e b off v)) = write (wh (ew e)) (b, off) v \/ (v = [] /\ e_write e b off v = e).
-Proof. unfold e_write. destruct v; [right; split; reflexivity|left; reflexivity]. Qed.
-
 Lemma einv_write O L R e b off v :
   einv O L R e -> In b (O ++ L) -> off + len v <= len (block (wh (ew e)) b) ->
   einv O L R (e_write e b off v) /\
@@ -604,9 +638,12 @@ Proof.
   intros Hi Hb Hl. unfold e_write. destruct v as [|x v'].
   - split; [assumption|]. rewrite splice_nil. split; [reflexivity|split; [reflexivity|apply lens_pres_refl]].
   - set (v := x :: v') in *.
-    destruct Hi as [Wk Sp (m & Hm & Hnd & HO & HL & HR)].
+    destruct Hi as [Wk Sp (m & Hm & Hnd & HO & HL & HR) Hx].
     assert (Hv : (b < length (wh (ew e)))%nat).
     { destruct Sp as [_ Sv _]. rewrite Forall_forall in Sv. apply Sv. rewrite app_assoc, in_app_iff. tauto. }
+    assert (Hbx : ~ In b xblocks).
+    { destruct Sp as [Sn _ _]. rewrite !app_assoc in Sn. rewrite <- app_assoc in Sn.
+      intros H. apply (NoDup_app_disj _ _ _ Sn Hb). rewrite in_app_iff. tauto. }
     split; [split|split; [|split]]; cbn [ew wh wpool wcot eev].
     + eapply wok_mono; try eassumption; try reflexivity. cbn [wh]. rewrite length_write. lia.
     + eapply sep_mono; try eassumption; try reflexivity. cbn [wh]. rewrite length_write. lia.
@@ -615,6 +652,7 @@ Proof.
       assert (memb b (mowned m) || memb b (mlent m) = true) as ->.
       { apply orb_true_iff. destruct Hb as [Hb|Hb]; [left; apply memb_In; now apply HO|right; apply memb_In; now apply HL]. }
       exists m. repeat split; try assumption; try apply HO; try apply HL; try apply HR.
+    + eapply xsnap_same; [|exact Hx]. intros x0 Hx0. apply block_write_other. intros ->. tauto.
     + now apply block_write_same.
     + intros b' Hne. now apply block_write_other.
     + split; [rewrite length_write; lia|]. intros b' _. now apply len_block_write.
@@ -627,7 +665,7 @@ Lemma einv_read O L R e b off n :
 Proof.
   intros Hi Hb. unfold e_read. cbn [fst snd read]. split; [|split; [destruct (n =? 0); reflexivity|reflexivity]].
   destruct (n =? 0); [assumption|].
-  destruct Hi as [Wk Sp (m & Hm & Hnd & HO & HL & HR)]. split; cbn [emit ew eev]; [assumption|assumption|].
+  destruct Hi as [Wk Sp (m & Hm & Hnd & HO & HL & HR) Hx]. split; cbn [emit ew eev]; [assumption|assumption| |assumption].
   rewrite montr_cons, Hm. cbn [mon_step].
   rewrite !in_app_iff in Hb.
   assert (memb b (mowned m) || memb b (mlent m) || memb b (mro m) = true) as ->.
@@ -642,7 +680,7 @@ Lemma einv_lend O L R e contents ro e' b :
   block (wh (ew e')) b = contents /\ frame (O ++ L ++ R) e e' /\
   (forall x, (x < length (wh (ew e)))%nat -> block (wh (ew e')) x = block (wh (ew e)) x).
 Proof.
-  intros [Wk Sp (m & Hm & Hnd & HO & HL & HR)] E. unfold e_lend in E. inversion E; subst; clear E.
+  intros [Wk Sp (m & Hm & Hnd & HO & HL & HR) Hx] E. unfold e_lend in E. inversion E; subst; clear E.
   cbn [ew eev wh].
   assert (Ef : w_fresh (ew e) (len contents) contents =
                (mkW (wh (ew e) ++ [mkbuf (len contents) contents]) (wpool (ew e)) (wcot (ew e)), length (wh (ew e)))) by reflexivity.
@@ -650,38 +688,41 @@ Proof.
   assert (Hmk : mkbuf (len contents) contents = contents).
   { unfold mkbuf. rewrite take_app_le by lia. now apply take_all. }
   rewrite Hmk in *. set (b := length (wh (ew e))) in *.
+  assert (A4' : ~ In b (O ++ L ++ R)) by (intros H; apply A4; now apply incl_foot).
   assert (Hmon : forall r, montr (EvLend b r :: eev e) =
             Some (if r then mkM (mowned m) (mlent m) (b :: mro m) else mkM (mowned m) (b :: mlent m) (mro m))).
-  { intros r. rewrite montr_cons, Hm. cbn [mon_step]. rewrite !in_app_iff in A4.
+  { intros r. rewrite montr_cons, Hm. cbn [mon_step]. rewrite !in_app_iff in A4'.
     assert (memb b (mowned m) = false) as -> by (apply memb_false; rewrite (HO b); tauto).
     assert (memb b (mlent m) = false) as -> by (apply memb_false; rewrite (HL b); tauto).
     assert (memb b (mro m) = false) as -> by (apply memb_false; rewrite (HR b); tauto).
     reflexivity. }
-  split; [|split; [assumption|split; [apply block_app_new|split; [split; assumption|]]]].
-  - destruct ro; split; cbn [ew eev]; try assumption.
-    + eapply sep_perm; [|exact A2]. rewrite !app_assoc. apply Permutation_middle.
+  assert (Hx' : xsnap (wh (ew e) ++ [contents])).
+  { eapply xsnap_same; [|exact Hx]. eapply same_on_incl; [apply incl_xb|exact A6]. }
+  split; [|split; [assumption|split; [apply block_app_new|split; [split; [eapply same_on_incl; [apply incl_foot|exact A6]|assumption]|]]]].
+  - destruct ro; split; cbn [ew eev wh]; try assumption.
+    + eapply sep_perm; [|exact A2]. cbn [app]. rewrite !(app_assoc O L). apply Permutation_middle.
     + rewrite Hmon. eexists. split; [reflexivity|]. cbn [mowned mlent mro].
       split; [assumption|split; [assumption|split; [assumption|now apply seteq_cons]]].
     + eapply sep_perm; [|exact A2]. apply Permutation_middle.
     + rewrite Hmon. eexists. split; [reflexivity|]. cbn [mowned mlent mro].
       split; [assumption|split; [assumption|split; [now apply seteq_cons|assumption]]].
-  - intros x Hx. now apply block_app_old.
+  - intros x Hx0. now apply block_app_old.
 Qed.
 
 (* the object hands an owned block to the caller for good *)
 Lemma einv_give_owned O L R e b :
   einv O L R e -> In b O -> einv (remove1 b O) L (b :: R) (emit e (EvGive b)).
 Proof.
-  intros [Wk Sp (m & Hm & Hnd & HO & HL & HR)] Hb.
+  intros [Wk Sp (m & Hm & Hnd & HO & HL & HR) Hx] Hb.
   assert (HnO : NoDup O) by (destruct Sp as [Sn _ _]; now apply NoDup_app_l in Sn).
-  split; cbn [emit ew eev]; [assumption| |].
+  split; cbn [emit ew eev]; [assumption| | |assumption].
   - eapply sep_perm; [|exact Sp].
     assert (P1 : Permutation O (b :: remove1 b O)).
     { clear -Hb. induction O as [|y O IH]; cbn [In remove1] in *; [tauto|].
       destruct (Nat.eqb_spec y b); [subst; apply Permutation_refl|].
       destruct Hb as [->|Hb]; [congruence|]. eapply perm_trans; [apply perm_skip, IH, Hb|apply perm_swap]. }
     eapply perm_trans; [apply Permutation_app_tail, P1|]. cbn [app].
-    rewrite !app_assoc. apply Permutation_middle.
+    rewrite !(app_assoc (remove1 b O) L). apply Permutation_middle.
   - rewrite montr_cons, Hm. cbn [mon_step].
     assert (memb b (mowned m) = true) as -> by (apply memb_In; now apply HO).
     eexists. split; [reflexivity|]. cbn [mowned mlent mro].
@@ -690,7 +731,7 @@ Qed.
 Lemma einv_give_lent O L R e b :
   einv O L R e -> ~ In b O -> In b L -> einv O L R (emit e (EvGive b)).
 Proof.
-  intros [Wk Sp (m & Hm & Hnd & HO & HL & HR)] HbO Hb. split; cbn [emit ew eev]; [assumption|assumption|].
+  intros [Wk Sp (m & Hm & Hnd & HO & HL & HR) Hx] HbO Hb. split; cbn [emit ew eev]; [assumption|assumption| |assumption].
   rewrite montr_cons, Hm. cbn [mon_step].
   assert (memb b (mowned m) = false) as -> by (apply memb_false; now rewrite (HO b)).
   assert (memb b (mlent m) = true) as -> by (apply memb_In; now apply HL).
@@ -699,9 +740,9 @@ Qed.
 Lemma einv_drop_owned O L R e b :
   einv O L R e -> In b O -> einv (remove1 b O) L R (emit e (EvDrop b)).
 Proof.
-  intros [Wk Sp (m & Hm & Hnd & HO & HL & HR)] Hb.
+  intros [Wk Sp (m & Hm & Hnd & HO & HL & HR) Hx] Hb.
   assert (HnO : NoDup O) by (destruct Sp as [Sn _ _]; now apply NoDup_app_l in Sn).
-  split; cbn [emit ew eev]; [assumption| |].
+  split; cbn [emit ew eev]; [assumption| | |assumption].
   - eapply sep_sub; [| |exact Sp].
     + destruct Sp as [Sn _ _]. rewrite <- remove1_app_in by assumption. now apply NoDup_remove1.
     + intros x. rewrite !in_app_iff. intros [H|H]; [left; eapply In_remove1; eassumption|tauto].
@@ -713,7 +754,7 @@ Qed.
 Lemma einv_drop_lent O L R e b :
   einv O L R e -> ~ In b O -> In b L -> einv O L R (emit e (EvDrop b)).
 Proof.
-  intros [Wk Sp (m & Hm & Hnd & HO & HL & HR)] HbO Hb. split; cbn [emit ew eev]; [assumption|assumption|].
+  intros [Wk Sp (m & Hm & Hnd & HO & HL & HR) Hx] HbO Hb. split; cbn [emit ew eev]; [assumption|assumption| |assumption].
   rewrite montr_cons, Hm. cbn [mon_step].
   assert (memb b (mowned m) = false) as -> by (apply memb_false; now rewrite (HO b)).
   assert (memb b (mlent m) = true) as -> by (apply memb_In; now apply HL).
@@ -722,11 +763,24 @@ Qed.
 
 Lemma einv_perm O O' L R e : Permutation O O' -> einv O L R e -> einv O' L R e.
 Proof.
-  intros P [Wk Sp (m & Hm & Hnd & HO & HL & HR)]. split; [assumption| |].
+  intros P [Wk Sp (m & Hm & Hnd & HO & HL & HR) Hx]. split; [assumption| | |assumption].
   - eapply sep_perm; [|exact Sp]. now apply Permutation_app_tail.
   - exists m. split; [assumption|split; [assumption|split; [|split; assumption]]].
     intros x. rewrite (HO x). split; apply Permutation_in; [assumption|now apply Permutation_sym].
 Qed.
+
+(* the caller's direct store into a block of the footprint (a region of a writer) *)
+Lemma einv_caller_write O L R e h' :
+  einv O L R e -> length h' = length (wh (ew e)) -> same_on xblocks (wh (ew e)) h' ->
+  einv O L R (mkE (mkW h' (wpool (ew e)) (wcot (ew e))) (eal e) (eadv e) (epool e) (eev e)).
+Proof.
+  intros [Wk Sp Mn Hx] Hl Hs. split; cbn [ew eev wh].
+  - eapply wok_mono; [| | |exact Wk]; cbn [wpool wcot wh]; try reflexivity. lia.
+  - eapply sep_mono; [| | |exact Sp]; cbn [wpool wcot wh]; try reflexivity. lia.
+  - exact Mn.
+  - eapply xsnap_same; eassumption.
+Qed.
+End EInv.
 
 Lemma pow2ceil_ge c : c <= pow2ceil c.
 Proof.
@@ -742,3 +796,32 @@ Proof.
   induction f as [|f IH]; intros x r n; cbn [grow_until]; destruct (x - r <? n); try lia.
   specialize (IH (2 * x) r n). lia.
 Qed.
+
+Definition env_of (w : world) (tr : list event) : env := mkE w [] [] [] tr.
+
+Lemma einv_co X O L R e l al adv padv :
+  einv X O L R e ->
+  einv X O L R (mkE (co_run (ew e) l) al adv padv (eev e)) /\
+  frame (O ++ L ++ R) e (mkE (co_run (ew e) l) al adv padv (eev e)).
+Proof.
+  intros [Wk Sp Mn Hx]. destruct (co_run_spec l _ _ Wk Sp) as (A1 & A2 & A3 & A4). cbn [ew eev].
+  split; [split; cbn [ew eev]; try assumption|split; cbn [ew]; [|assumption]].
+  - eapply xsnap_same; [|exact Hx]. eapply same_on_incl; [apply incl_xb|exact A3].
+  - eapply same_on_incl; [apply incl_foot|exact A3].
+Qed.
+
+Lemma einv_init X w : wok w -> sep (xblocks X) w -> xsnap X (wh w) -> einv X [] [] [] (env_of w []).
+Proof.
+  intros Wk Sp Hx. split; cbn [env_of ew eev app]; try assumption.
+  exists m0. unfold montr. cbn. repeat split; try constructor; intros [].
+Qed.
+Lemma einv_init0 w : wok w -> einv [] [] [] [] (env_of w []).
+Proof.
+  intros Wk. apply einv_init; [assumption| |constructor]. split; [constructor|constructor|intros b []].
+Qed.
+
+Arguments einv_world {X}. Arguments einv_sep3 {X}. Arguments einv_callback {X}. Arguments einv_poolpoint {X}.
+Arguments einv_alloc_gen {X}. Arguments einv_malloc {X}. Arguments einv_gcalloc {X}. Arguments einv_free {X}.
+Arguments einv_write {X}. Arguments einv_read {X}. Arguments einv_lend {X}. Arguments einv_give_owned {X}.
+Arguments einv_give_lent {X}. Arguments einv_drop_owned {X}. Arguments einv_drop_lent {X}. Arguments einv_perm {X}.
+Arguments einv_caller_write {X}. Arguments xsnap_same {X}.
